@@ -262,7 +262,23 @@ fn option_grid(tier: Tier) -> Vec<TrkCfg> {
             }
         }
     }
+    // the own-area 'use' and 'collect' thresholds each switched on alone (the share computation is
+    // triggered by their sum)
+    let mut extra = vec![];
+    for (k, c) in all.iter().enumerate() {
+        if tier == Tier::Thorough || k % 37 == 5 {
+            for (u, col) in [(0.5f32, 0.0f32), (0.0, 0.3)] {
+                if c.vis.own_use > 0.0 {
+                    let mut e = c.clone();
+                    e.vis.own_use = u;
+                    e.vis.own_collect = col;
+                    extra.push(e);
+                }
+            }
+        }
+    }
     if tier == Tier::Thorough {
+        all.extend(extra);
         return all;
     }
     // covering subset: every option takes each of its values, chosen by a fixed parity code
@@ -275,13 +291,14 @@ fn option_grid(tier: Tier) -> Vec<TrkCfg> {
             pick.push(c.clone());
         }
     }
+    pick.extend(extra);
     pick
 }
 
 pub fn run(tier: Tier) -> Report {
     let rep = Report::new("C12", tier);
     let ls = Arc::new(lists());
-    rep.set_rule("every call history of depth <= D (quick 4 for VisualSort, thorough 4 on the full grid; VisualSort; BatchVisualSort one level shallower on a sub-grid) over 12 detection lists (same look, look-alike, swapped appearances, no feature, low quality, small box, mutual occlusion, far-away look-alike, empty) x option grid {Euclidean(.5) / cosine(.9)} x {IoU, Mahalanobis} x min votes {1,2} x minimal track length {1,2} x max observations {2,3} x use/collect quality {(0,.6),(.5,.3)} x minimal area {0,150} x own-area share use/collect {(0,0),(.5,.2)} (quick: covering subset in which every option takes every value; thorough: all 512); before every call the galleries are read from the store and usable / collected / votes / weights / contests / positional fallback re-derived independently. Non-trivial = call with at least one appearance claim.");
+    rep.set_rule("every call history of depth <= D (quick 4 for VisualSort, thorough 4 on the full grid; VisualSort; BatchVisualSort one level shallower on a sub-grid) over 12 detection lists (same look, look-alike, swapped appearances, no feature, low quality, small box, mutual occlusion, far-away look-alike, empty) x option grid {Euclidean(.5) / cosine(.9)} x {IoU, Mahalanobis} x min votes {1,2} x minimal track length {1,2} x max observations {2,3} x use/collect quality {(0,.6),(.5,.3)} x minimal area {0,150} x own-area share use/collect {(0,0),(.5,.2)} plus each threshold switched on alone {(.5,0),(0,.3)} (quick: covering subset in which every option takes every value; thorough: all 512); before every call the galleries are read from the store and usable / collected / votes / weights / contests / positional fallback re-derived independently. Non-trivial = call with at least one appearance claim.");
     rep.assume("decisions within 1e-3 of a threshold or vote weights within 1e-4 of each other are accepted either way (counted as undecided)");
     let grid = option_grid(tier);
     rep.extra("option_points", json!(grid.len()));
